@@ -43,7 +43,7 @@ func newSolver() *solver {
 	}
 	s := &solver{cmd: cmd, in: bufio.NewWriterSize(in, 1<<16), out: bufio.NewReaderSize(out, 1<<16)}
 	if p := os.Getenv("SYMGO_SMTLOG"); p != "" {
-		f, err := os.OpenFile(p, os.O_CREATE|os.O_WRONLY|os.O_APPEND, 0o644)
+		f, err := os.OpenFile(fmt.Sprintf("%s.%d", p, os.Getpid()), os.O_CREATE|os.O_WRONLY|os.O_APPEND, 0o644)
 		if err == nil {
 			s.log = f
 		}
@@ -79,6 +79,9 @@ func (s *solver) check() string {
 	s.send("(check-sat)")
 	r := s.line()
 	s.dur += time.Since(t0)
+	if s.log != nil {
+		io.WriteString(s.log, "; => "+r+"\n")
+	}
 	switch r {
 	case "sat":
 		s.sat++
